@@ -43,6 +43,7 @@ Operand(e, p, side) ==
 ESrc(e) ==
   CASE e.k \in {"nil", "true", "false", "empty", "blank"} -> e.k
     [] e.k = "int"   -> ToString(e.n)
+    [] e.k = "float" -> e.txt                      \* as the author wrote it (1.50, 2.5e1 ...)
     [] e.k = "str"   -> Quote(e) \o e.v \o Quote(e)
     [] e.k = "var"   -> PathSrc(e.segs)
     [] e.k = "range" -> "(" \o ESrc(e.a) \o ".." \o ESrc(e.b) \o ")"
